@@ -139,6 +139,7 @@ func TestVerifC17Jar(t *testing.T) {
 					key, ok := source[signerKid]
 					verd["keyfound"] = ok
 					if ok {
+						verd["fits"] = tokenV2.VAlgFitsKey(info.Sigs[0].Alg, key)
 						tok, err := jwt.ParseString(v.Tok, jwt.WithKey(jwa.SignatureAlgorithm(info.Sigs[0].Alg), key), jwt.WithVerify(true), jwt.WithValidate(true))
 						verd["verified"] = err == nil
 						if err == nil { // the client_id claim as the request-object parser reads it (claim parsing is jwx's business)
